@@ -307,6 +307,101 @@ pub fn run_case(c: &Sexp) -> Sexp {
             });
             Sexp::tag("obs", vec![schema_to_sexp(&schema), dec, valid, reenc, redec, deser])
         }
+        // (vw #schema-json VALUE) -> (obs SCHEMA VALUE valid01 RESOLVE DATUM DEC SO CONTAINER)
+        //   validation, resolution, and the three validating write paths on one value
+        "vw" => {
+            use apache_avro::{GenericSingleObjectWriter, Writer};
+            if a.len() != 2 {
+                return bad("arity");
+            }
+            let schema = match parse_schema(&a[0]) {
+                Ok(s) => s,
+                Err(e) => return e,
+            };
+            let value = match sexp_to_value(&a[1]) {
+                Ok(v) => v,
+                Err(e) => return bad(&e),
+            };
+            let vdump = value_to_sexp(&value);
+            let valid = guarded(|| Sexp::num(value.validate(&schema) as i64));
+            let resolved = guarded(|| match value.clone().resolve(&schema) {
+                Ok(v) => ok(vec![value_to_sexp(&v)]),
+                Err(_) => err(),
+            });
+            let mut bytes: Vec<u8> = Vec::new();
+            let datum = guarded(|| {
+                let w = match GenericDatumWriter::builder(&schema).build() {
+                    Ok(w) => w,
+                    Err(_) => return Sexp::tag("writer-err", vec![]),
+                };
+                match w.write_value_ref(&mut bytes, &value) {
+                    Ok(_) => ok(vec![]),
+                    Err(_) => err(),
+                }
+            });
+            let datum_ok = matches!(datum.tagged(), Some(("ok", _)));
+            let datum = Sexp::tag(if datum_ok { "ok" } else { "err" }, vec![Sexp::hex(&bytes)]);
+            let dec = if datum_ok {
+                guarded(|| {
+                    let r = GenericDatumReader::builder(&schema).build().unwrap();
+                    let mut slice = &bytes[..];
+                    match r.read_value(&mut slice) {
+                        Ok(v) => ok(vec![value_to_sexp(&v), Sexp::hex(slice)]),
+                        Err(_) => err(),
+                    }
+                })
+            } else {
+                Sexp::tag("skipped", vec![])
+            };
+            let mut so_bytes: Vec<u8> = Vec::new();
+            let so = guarded(|| {
+                let mut w = match GenericSingleObjectWriter::new_with_capacity(&schema, 16) {
+                    Ok(w) => w,
+                    Err(_) => return Sexp::tag("writer-err", vec![]),
+                };
+                match w.write_value_ref(&value, &mut so_bytes) {
+                    Ok(_) => ok(vec![]),
+                    Err(_) => err(),
+                }
+            });
+            let so = Sexp::tag(if matches!(so.tagged(), Some(("ok", _))) { "ok" } else { "err" }, vec![Sexp::hex(&so_bytes)]);
+            let sink = crate::container::SharedSink(std::rc::Rc::new(std::cell::RefCell::new(Vec::new())));
+            let cont = guarded(|| {
+                let mut w = match Writer::builder().schema(&schema).writer(sink.clone()).marker([7u8; 16]).build() {
+                    Ok(w) => w,
+                    Err(_) => return Sexp::tag("writer-err", vec![]),
+                };
+                let r = w.append_value_ref(&value);
+                let pending_before_flush = sink.0.borrow().len();
+                let _ = w.flush();
+                match r {
+                    Ok(_) => ok(vec![Sexp::num(pending_before_flush as u64)]),
+                    Err(_) => err(),
+                }
+            });
+            let file = sink.0.borrow().clone();
+            // values read back from the container (if any)
+            let cread = guarded(|| {
+                if file.is_empty() {
+                    return Sexp::tag("items", vec![]);
+                }
+                match apache_avro::Reader::new(&file[..]) {
+                    Ok(r) => Sexp::tag(
+                        "items",
+                        r.map(|x| match x {
+                            Ok(v) => ok(vec![value_to_sexp(&v)]),
+                            Err(_) => err(),
+                        })
+                        .collect(),
+                    ),
+                    Err(_) => Sexp::tag("open-err", vec![]),
+                }
+            });
+            Sexp::tag(
+                "obs",
+                vec![schema_to_sexp(&schema), vdump, valid, resolved, datum, dec, so, cont, cread],
+            )
+        }
         "sinkrun" => crate::sinkrun::sinkrun(a),
         "sizes" => Sexp::tag(
             "sizes",
